@@ -31,6 +31,7 @@ FLOORS = ["class-compared", "T-case-any", "T-port-any", "T-lang-xx", "T-lang-xx-
           "opt-strip_suffix", "opt-platform_aware", "lang-with-www", "platform-host-gl-hl"]
 PROBE_FLOORS = ["strip_lang_subdomains_from_hostname", "fingerprint_url", "lang_query_item_filter"]
 
+CTX = [None]
 OPTSETS = [("default", {}), ("strip_suffix", {"strip_suffix": True}), ("platform_aware", {"platform_aware": True}), ("strip_suffix+platform_aware", {"strip_suffix": True, "platform_aware": True})]
 SUFFIXES = ["com", "fr", "co.uk", "org", "com.au", "de", "pvt.k12.ma.us", "act.edu.au", "net"]
 PROTO_RE = re.compile(r"^[a-zA-Z]{0,64}:?//")
@@ -138,7 +139,10 @@ CASE_T.update({"case-any": t_case_any, "port-any": t_port_any, "lang": t_lang, "
 
 def fp(fn, u, opts):
     try:
-        return fn(u, **opts)
+        r = fn(u, **opts)
+        if CTX[0] is not None:
+            CTX[0].out((u, sorted(opts.items()), r))
+        return r
     except Exception as e:
         return ("EXC", type(e).__name__, str(e)[:80])
 
@@ -230,6 +234,7 @@ def run(ctx):
     pr.watch("ural.fingerprint_url:lang_query_item_filter", want_args=False, lines=False)
     pr.start()
     rng = ctx.rng
+    CTX[0] = ctx
     codes = iso_codes()
     try:
         if ctx.shard == 0:
@@ -300,6 +305,7 @@ def run(ctx):
             if n_here % 30 == 1:
                 ctx.sample("grid-%d" % (n_here // 30 % 4), {"base": ub, "variants": [u for _, u in (sv[:3] + sv[-2:] + swaps[:2])]})
         ctx.exhaustive_space("grid bases (every %d-th of %d) x single transformations, gl/hl at every position, ISO codes, suffix swaps" % (step, len(grid)), n_here)
+        ctx.freeze_outputs()
         names = list(CASE_T)
         n = 0
         lim = 6000 if ctx.tier == "quick" else 10 ** 7
